@@ -841,7 +841,7 @@ func Budget(thorough bool) e1.Budget {
 	// from inside Write) is shared state that is not a scheduler object. No local-object elision: the only
 	// objects are the datastore's locks, the clock and the stamps, all shared.
 	// quick: bounds 0, 1, 2 must complete (seconds); bound 3 and the unbounded search are best effort inside PerScen
-	b := e1.Budget{Bounds: []int{0, 1, 2, 3, -1}, Required: 3, Prune: false, Elide: false, PerScen: 35 * time.Second, RequiredPerScen: 50 * time.Second, DevBounds: []int{1, 2, 3}, DevRequired: 2, DevPerScen: 10 * time.Second}
+	b := e1.Budget{Bounds: []int{0, 1, 2, 3, -1}, Required: 3, Prune: false, Elide: false, PerScen: 35 * time.Second, RequiredPerScen: 50 * time.Second, DevBounds: []int{1, 2}, DevRequired: 1, DevPerScen: 6 * time.Second}
 	if thorough {
 		b.Bounds = []int{0, 1, 2, 3, 4, -1}
 		b.Required = 4
